@@ -801,4 +801,27 @@ example : (Cw1SubkeysMigrate.run { exState with cfg := ⟨["admin"], false⟩, c
     [.migrate, .exec blk50 "admin" (.updateAdmins [⟨true, "sub"⟩])]).cfg = ⟨["admin"], false⟩ :=
   Sk.frozen_forever_with_migrations rfl _
 
+/-! ## No contract call is ever relayed for a non-admin (monitor `C17/self-call-relayed-for-non-admin`)
+
+A relayed `WasmMsg::Execute` addressed to the proxy itself arrives with the proxy as sender; when the proxy is one of
+its own admins it passes every admin check.  Only admins can have the proxy relay a contract call at all. -/
+
+/-- cw1-subkeys: a successful `Execute` of a non-admin relays no wasm message (in particular no self-call). -/
+theorem Sk.nonadmin_relays_no_wasm {s s' : Cw1Subkeys.State} {blk : Block} {snd : Addr} {msgs out : List CosmosMsg}
+    (hna : s.cfg.isAdmin snd = false) (h : Cw1Subkeys.execute s blk snd (.execute msgs) = .ok (s', out)) :
+    ∀ p, CosmosMsg.wasm p ∉ out := by
+  intro p hp
+  rw [C07.Sk.relay_exact h] at hp
+  obtain ⟨e, he⟩ := C07.Sk.other_kinds_rejected (m := .wasm p) hna hp rfl
+  rw [h] at he; cases he
+
+/-- cw1-whitelist: a non-admin relays nothing at all. -/
+theorem Wl.nonadmin_relays_nothing {s : Cw1Whitelist.State} {blk : Block} {snd : Addr} {msgs : List CosmosMsg}
+    (hna : snd ∉ s.admins) : (Cw1Whitelist.execute s blk snd (.execute msgs)).isOk = false := by
+  have h := C07.Wl.execute_ok_iff s blk snd msgs
+  cases hr : (Cw1Whitelist.execute s blk snd (.execute msgs)).isOk with
+  | false => rfl
+  | true => exact absurd (h.mp hr) hna
+
+
 end CwPlus.Props.C17
